@@ -161,3 +161,10 @@ def run(P, R, tier):
     for r in [x for x in walk_no_nested(f.node) if isinstance(x, ast.Return) and x.value is not None]:
         c = cone(du, r.value, r, interproc=False)
         R.check(c.has_attr("U", "_U") and any(x.endswith(".estimate_x") for x in c.calls), "DEP.estimate_ux", f.key, f"return {src(r.value)}", "U @ x", "the channel offset is not U times the estimated channel factor")
+    from ..engines import opt as _opt
+    n_opt = 0
+    for name in ['_compute_fn_x_ih', '_compute_fn_y_i', '_compute_fn_z_i', '_compute_latent_x_per_class', '_latent_y_per_class', '_latent_z_per_class', 'compute_latent_x', 'update_y', 'update_z', 'update_x', 'compute_accumulators_U', 'compute_accumulators_V', 'compute_accumulators_D', '_compute_fn_x', 'estimate_x']:
+        k_ = "factor_analysis:FactorAnalysisBase." + name
+        if P.func(k_, required=False) is not None:
+            n_opt += _opt.check_function(P, R, k_)
+    R.floor("OPT optional-factor selections", n_opt, 6)
